@@ -24,16 +24,21 @@ def Dd (x : Stream) : Prop := x.state.isClosed = true ∧ dsum x.pendingSend = 0
 def Nn (x : Stream) : Prop := x.pendingSend = [] ∧ x.isPendingSend = false ∧ x.bufferedSendData = 0
 def flagB (x : Stream) : Bool := x.isPendingOpen || x.isPendingPush
 
-structure XE (sv : Bool) (x : Stream) : Prop where
+/-- `r`: slack between `buffered_send_data` and the queued DATA of a flagged entry (`Prioritize::send_data` raises the
+    counter before it queues the frame) -/
+structure XEr (sv : Bool) (r : Nat) (x : Stream) : Prop where
   n : locId sv x.id = true → suB x.state = true → Nn x
   f : flagB x = true → Wv x ∨ Dd x
+  e : flagB x = true → x.bufferedSendData ≤ dsum x.pendingSend + r
+
+abbrev XE (sv : Bool) (x : Stream) : Prop := XEr sv 0 x
 
 theorem dsum_head_le (l : List SFrame) : dsum l.head?.toList ≤ dsum l := by
   cases l with
   | nil => exact Nat.le_refl _
   | cons f l => cases f <;> simp [dsum]
 
-theorem XE.ohead {x : Stream} (h : XE sv x) : OHead x := by
+theorem XEr.ohead {r : Nat} {x : Stream} (h : XEr sv r x) : OHead x := by
   intro hp
   rcases h.f (by unfold flagB; rw [hp]; rfl) with hw | hd
   · exact hw.2.1
@@ -41,23 +46,24 @@ theorem XE.ohead {x : Stream} (h : XE sv x) : OHead x := by
     have h0 := hd.2.1
     omega
 
-theorem XE.blank (k : Nat) : XE sv { key := k, id := 0 } :=
-  ⟨fun _ _ => ⟨rfl, rfl, rfl⟩, fun h => Bool.noConfusion h⟩
+theorem XEr.blank (r k : Nat) : XEr sv r { key := k, id := 0 } :=
+  ⟨fun _ _ => ⟨rfl, rfl, rfl⟩, fun h => Bool.noConfusion h, fun h => Bool.noConfusion h⟩
 
 /-- what an update of an entry keeps -/
 structure Xp (sv : Bool) (a b : Stream) : Prop where
-  xe : XE sv a → XE sv b
+  xe : ∀ r, XEr sv r a → XEr sv r b
 
-theorem Xp.refl (a : Stream) : Xp sv a a := ⟨id⟩
+theorem Xp.refl (a : Stream) : Xp sv a a := ⟨fun _ h => h⟩
 theorem Xp.trans {a b c : Stream} (h1 : Xp sv a b) (h2 : Xp sv b c) : Xp sv a c :=
-  ⟨fun h => h2.xe (h1.xe h)⟩
+  ⟨fun r h => h2.xe r (h1.xe r h)⟩
 
 theorem xp_same {a b : Stream} (h1 : b.id = a.id) (h2 : b.state = a.state) (h3 : b.pendingSend = a.pendingSend)
     (h4 : b.isPendingSend = a.isPendingSend) (h5 : b.bufferedSendData = a.bufferedSendData)
     (h6 : b.isPendingOpen = a.isPendingOpen) (h7 : b.isPendingPush = a.isPendingPush) : Xp sv a b := by
-  refine ⟨fun h => ⟨?_, ?_⟩⟩
+  refine ⟨fun r h => ⟨?_, ?_, ?_⟩⟩
   · unfold Nn; rw [h1, h2, h3, h4, h5]; exact h.n
   · unfold flagB Wv Dd; rw [h2, h3, h4, h5, h6, h7]; exact h.f
+  · unfold flagB; rw [h3, h5, h6, h7]; exact h.e
 
 /-- the three facts about a new state -/
 structure STR (a b : State) : Prop where
@@ -66,7 +72,7 @@ structure STR (a b : State) : Prop where
   cl : a.isClosed = true → b.isClosed = true
 
 theorem xp_state (x : Stream) (st' : State) (h : STR x.state st') : Xp sv x { x with state := st' } := by
-  refine ⟨fun hx => ⟨fun hl hs => hx.n hl (h.su hs), fun hf => ?_⟩⟩
+  refine ⟨fun r hx => ⟨fun hl hs => hx.n hl (h.su hs), fun hf => ?_, hx.e⟩⟩
   rcases hx.f hf with hw | hd
   · refine .inl ⟨hw.1, hw.2.1, fun hp => ⟨?_, (hw.2.2 hp).2⟩⟩
     have := (hw.2.2 hp).1
@@ -167,7 +173,7 @@ theorem setQueued_xp (x : Stream) (q : QName) (v : Bool) (h : (q ≠ .pendingSen
     rcases h with h | h
     · exact absurd rfl h.1
     · subst h
-      refine ⟨rfl, ⟨fun hx => ⟨fun hl hs => ⟨(hx.n hl hs).1, rfl, (hx.n hl hs).2.2⟩, fun hf => ?_⟩⟩⟩
+      refine ⟨rfl, ⟨fun r hx => ⟨fun hl hs => ⟨(hx.n hl hs).1, rfl, (hx.n hl hs).2.2⟩, fun hf => ?_, hx.e⟩⟩⟩
       rcases hx.f hf with hw | hd
       · exact .inl ⟨rfl, hw.2.1, hw.2.2⟩
       · exact .inr hd
@@ -175,7 +181,14 @@ theorem setQueued_xp (x : Stream) (q : QName) (v : Bool) (h : (q ≠ .pendingSen
     rcases h with h | h
     · exact absurd rfl h.2
     · subst h
-      refine ⟨rfl, ⟨fun hx => ⟨hx.n, fun hf => ?_⟩⟩⟩
+      have hff : ∀ hf : flagB (x.setQueued .pendingOpen false) = true, flagB x = true := by
+        intro hf
+        unfold flagB at hf ⊢
+        have : x.isPendingPush = true := by
+          have : (false || x.isPendingPush) = true := hf
+          simpa using this
+        rw [this]; simp
+      refine ⟨rfl, ⟨fun r hx => ⟨hx.n, fun hf => ?_, fun hf => hx.e (hff hf)⟩⟩⟩
       have hf' : flagB x = true := by
         unfold flagB at hf ⊢
         have : x.isPendingPush = true := by
@@ -194,14 +207,15 @@ macro "xp_tac" : tactic => `(tactic| with_reducible first
 -- ===================================================================== the relation
 
 structure XK (sv : Bool) (s s' : Streams) : Prop where
-  xe : ∀ j, XE sv (s.stream j) → XE sv (s'.stream j)
+  xe : ∀ r j, XEr sv r (s.stream j) → XEr sv r (s'.stream j)
 
-theorem XK.refl (s : Streams) : XK sv s s := ⟨fun _ h => h⟩
-theorem XK.trans {a b c : Streams} (h1 : XK sv a b) (h2 : XK sv b c) : XK sv a c := ⟨fun j h => h2.xe j (h1.xe j h)⟩
+theorem XK.refl (s : Streams) : XK sv s s := ⟨fun _ _ h => h⟩
+theorem XK.trans {a b c : Streams} (h1 : XK sv a b) (h2 : XK sv b c) : XK sv a c :=
+  ⟨fun r j h => h2.xe r j (h1.xe r j h)⟩
 theorem XK.of_fst_eq {s : Streams} {α : Type} {p : Streams × α} {a : Streams} {x : α}
     (h : p = (a, x)) (e : XK sv s p.1) : XK sv s a := by subst h; exact e
 theorem XK.of_store {s s' : Streams} (h : s'.store = s.store) : XK sv s s' :=
-  ⟨fun j hj => by rw [stream_of_store_eqP h]; exact hj⟩
+  ⟨fun r j hj => by rw [stream_of_store_eqP h]; exact hj⟩
 
 theorem panic_xk (s : Streams) (m : String) : XK sv s (s.panic m) := .of_store (panic_store _ _)
 theorem wake_xk (s : Streams) (t : List String) : XK sv s (s.wake t) := .of_store rfl
@@ -227,10 +241,10 @@ theorem setMisc_xk (s : Streams) (a : Actions) (refs leaked : Nat) (wk : List St
 theorem setCounts_xk (s : Streams) (c : Counts) : XK sv s { s with counts := c } := .of_store rfl
 
 theorem setStream_xk (s : Streams) (st' : Stream) (h : Xp sv (s.stream st'.key) st') : XK sv s (s.setStream st') := by
-  refine ⟨fun j hj => ?_⟩
+  refine ⟨fun r j hj => ?_⟩
   rcases setStream_stream s st' j with e | ⟨e, hk, _⟩
   · rw [e]; exact hj
-  · rw [e]; rw [hk] at hj; exact h.xe hj
+  · rw [e]; rw [hk] at hj; exact h.xe r hj
 
 /-- a stream update, judged on the entry it is applied to -/
 theorem modStream_xk (s : Streams) (k : Nat) (f : Stream → Stream)
@@ -266,7 +280,7 @@ theorem qPop_xk (s : Streams) (q : QName) : XK sv s (s.qPop q).1 := by
   · exact (setQ_xk _ _ _).trans (modStream_xk _ _ _ (setQueued_xp _ q false (.inr rfl)))
 
 theorem remove_xk (s : Streams) (k n : Nat) : XK sv s { s with store := s.store.remove k, recvBufferLeaked := n } := by
-  refine ⟨fun j hj => ?_⟩
+  refine ⟨fun r j hj => ?_⟩
   by_cases hjk : j = k
   · subst hjk
     have hb : ({ s with store := s.store.remove j, recvBufferLeaked := n } : Streams).stream j = { key := j, id := 0 } := by
@@ -279,24 +293,24 @@ theorem remove_xk (s : Streams) (k n : Nat) : XK sv s { s with store := s.store.
         simpa using this
       show ((s.store.remove j).get? j).getD _ = _
       rw [this]; rfl
-    rw [hb]; exact XE.blank _
+    rw [hb]; exact XEr.blank _ _
   · have : ({ s with store := s.store.remove k, recvBufferLeaked := n } : Streams).stream j = s.stream j := by
       unfold Streams.stream
       show ((s.store.remove k).get? j).getD _ = _
       rw [get?_remove_ne _ _ _ hjk]
     rw [this]; exact hj
-theorem unlink_xk (s : Streams) (id : Nat) : XK sv s { s with store := s.store.unlink id } := ⟨fun _ hj => hj⟩
+theorem unlink_xk (s : Streams) (id : Nat) : XK sv s { s with store := s.store.unlink id } := ⟨fun _ _ hj => hj⟩
 
-theorem insert_xk (s : Streams) (st : Stream) (h : ∀ k, XE sv { st with key := k }) :
+theorem insert_xk (s : Streams) (st : Stream) (h : ∀ r k, XEr sv r { st with key := k }) :
     XK sv s { s with store := (s.store.insert st).1 } := by
-  refine ⟨fun j hj => ?_⟩
+  refine ⟨fun r j hj => ?_⟩
   unfold Streams.stream at hj ⊢
-  show XE sv (((s.store.insert st).1.get? j).getD _)
+  show XEr sv r (((s.store.insert st).1.get? j).getD _)
   rcases insert_get?_cases s.store st j with e | ⟨e0, _, e⟩
   · rw [e]; exact hj
-  · rw [e]; exact h _
+  · rw [e]; exact h _ _
 theorem insertNew_xk (s : Streams) (id a b : Nat) : XK sv s { s with store := (s.store.insert (Stream.new id a b)).1 } :=
-  insert_xk s _ (fun _ => ⟨fun _ _ => ⟨rfl, rfl, rfl⟩, fun h => Bool.noConfusion h⟩)
+  insert_xk s _ (fun _ _ => ⟨fun _ _ => ⟨rfl, rfl, rfl⟩, fun h => Bool.noConfusion h, fun h => Bool.noConfusion h⟩)
 
 
 -- ===================================================================== the peeling tactic (relation with a parameter)
